@@ -173,6 +173,15 @@ def run_spec(case):
                 if got != Counter(ws):
                     cx.violation("C07:generate-objects-of-size-wrong",
                                  f"size {n} params {params}: generated {dict(got)}, truth {sorted(ws)}", {"n": n})
+                if len(names) >= 2:
+                    # keyword order must not matter
+                    rev = dict(reversed(list(params.items())))
+                    got_rev = Counter(map(str, spec.generate_objects_of_size(n, **rev)))
+                    cx.count("c07.generate_calls_with_reversed_keyword_order")
+                    if got_rev != Counter(ws):
+                        cx.violation("C07:generate-objects-of-size-wrong",
+                                     f"size {n} params {rev} (keywords in reverse order): generated {dict(got_rev)}, "
+                                     f"truth {sorted(ws)}", {"n": n})
                 cnt = spec.count_objects_of_size(n, **params)
                 if sum(got.values()) != cnt:
                     cx.violation("C07:count-differs-from-generated",
